@@ -5,7 +5,7 @@ import solvecommon as sc, oracle_exact as ox, gen_games, impl
 RULE = ("stopping / exact-dyadic games incl. initial states that cannot reach a final state or are forced away by Player 2, "
         "0-4 dead successors in all arrangements, rewarded states next to dead branches; both modes; 20 s limit per run. "
         "non-trivial = >3 states and some state with >=2 transitions; distinct by (description, mode)")
-ASSUMPTIONS = ["probabilities written in a description are positive (a transition of probability exactly 0 is outside the quantifier: DESIGN.md Appendix E, boundary observations)",
+ASSUMPTIONS = ["a probabilistic state whose alive successors all carry probability exactly 0 (surviving mass 0) is outside the quantifier (DESIGN.md Appendix E, boundary observations); zero weights on dead successors are inside it",
                "non-termination of the implementation is observed through a time limit; termination of the model's reach loop is a theorem on exact rationals, of the reward loop only partially"]
 
 K1_WITNESS = dict(rewards=[0, 0, 0, 0], players=[P1, PR, PR, PR],
